@@ -446,9 +446,11 @@ func Headers(t *rapid.T, o HeaderOpts) (prot, unprot rc.Val) {
 		idx := rapid.IntRange(0, len(prot.M)-1).Draw(t, "crit-first")
 		entries := []rc.Val{critRef(t, prot.M[idx].K, o.Val)}
 		if len(prot.M) > 1 && rapid.Bool().Draw(t, "crit-two") {
+			// (the same label may be listed twice: crit = [+ label], each present)
 			j := rapid.IntRange(0, len(prot.M)-1).Draw(t, "crit-second")
-			if j != idx {
-				entries = append(entries, critRef(t, prot.M[j].K, o.Val))
+			entries = append(entries, critRef(t, prot.M[j].K, o.Val))
+			if rapid.IntRange(0, 3).Draw(t, "crit-three") == 0 {
+				entries = append(entries, critRef(t, prot.M[idx].K, o.Val))
 			}
 		}
 		add(&prot, takenP, lab(2), rc.Array(entries...))
